@@ -112,6 +112,10 @@ def gen_case(prop: str, seed: int, tier: str, index: int, classes: List[str]) ->
         # one total blackout, longer than the detection bound, starting in steady state
         plan = [{"op": "phase", "t": round(rng.uniform(8.0, 14.0), 3), "kind": "blackout", "dur": round(detection_bound(tables) + rng.choice([2.0, 10.0]), 1)}]
         end = plan[0]["t"] + plan[0]["dur"]
+    rng_c = random.Random(mix(seed, "connect-while-facade"))
+    if prop == "C08" and rng_c.random() < 0.25:
+        for _ in range(rng_c.randint(1, 3)):
+            plan.append({"op": "connect", "t": round(rng_c.uniform(6.0, end + 5), 3)})
     # the name is optional in set-spa-info (it is learnt from the discovery reply when connecting): leave it out now and then
     rng_name = random.Random(mix(seed, "setinfo-name"))
     for op in plan:
@@ -255,6 +259,26 @@ async def scenario(world: WorldA) -> None:
         user_ops.append(rec)
         res.fault("user_" + kind)
         res.probe(f"{kind}_in_{man.spa_state.name}")
+        if kind == "connect":
+            # the client asks for a connection although one stands (its own reconnect logic after a missed ping, a double click): the
+            # library refuses (AssertionError) and nothing else happens -- no event, no state change
+            f0 = man.facade
+            if f0 is None:
+                res.probe("connect_request_skipped_no_facade")
+                return
+            n0 = len(man.deliveries)
+            try:
+                await man.async_connect_to_spa(f0.spa.descriptor)
+                refused = False
+            except AssertionError:
+                refused = True
+            res.probe("connect_requested_while_a_facade_exists")
+            mine = [d for d in man.deliveries[n0:] if d["task"] == task_name()]
+            if mine or not refused:
+                world.note("C08", "unstarted-phase-announced", f"connect requested at {rec['t0']:.3f} while a facade exists (state {rec['state0']}): "
+                           f"{'accepted' if not refused else 'refused'}, and the request itself delivered {[d['event'].name for d in mine][:6]}",
+                           sig="connect-while-facade:events-delivered")
+            return
         orc.user_reset_begin()
         try:
             if kind == "reset":
@@ -376,7 +400,7 @@ async def scenario(world: WorldA) -> None:
             if op["op"] == "phase":
                 side_tasks.append(asyncio.create_task(run_phase(world, model, op, res, blackout_windows, man, phase_log),
                                                       name=f"HARNESS:phase-{len(side_tasks)}"))
-            elif op["op"] in ("reset", "setinfo"):
+            elif op["op"] in ("reset", "setinfo", "connect"):
                 side_tasks.append(asyncio.create_task(user_op(op), name=f"HARNESS:user-{len(side_tasks)}"))
             elif op["op"] == "inject":
                 side_tasks.append(asyncio.create_task(inject(op), name=f"HARNESS:inject-{len(side_tasks)}"))
